@@ -396,8 +396,11 @@ type c17Keys struct{}
 func (c17Keys) FooterKey([]byte) ([]byte, error)           { return c17Key, nil }
 func (c17Keys) ColumnKey([]string, []byte) ([]byte, error) { return []byte("fedcba9876543210"), nil }
 
-func typedFactory[T any](sp spec, rows []T, n int, sortCol string, baseOpts func() []parquet.WriterOption) *factory {
+func typedFactory[T any](sp spec, rows []T, n int, sortCol string, maxRows int64, baseOpts func() []parquet.WriterOption) *factory {
 	f := &factory{sp: sp, n: n, extra: len(rows) - n, hist: histOf(sp.Case.Seed, n), maxRows: math.MaxInt64}
+	if maxRows > 0 {
+		f.maxRows = maxRows
+	}
 	f.ncols = len(parquet.SchemaOf(new(T)).Columns())
 	opts := func() []parquet.WriterOption {
 		o := baseOpts()
@@ -479,15 +482,20 @@ func build(sp spec) (f *factory, ok bool) {
 			rows[i].S = "zzzz-" + rows[i].S
 			rows[i].Q = -1e9
 		}
-		return typedFactory(sp, rows, n, "id", func() []parquet.WriterOption {
+		mrng := rand.New(rand.NewSource(sp.Case.Seed ^ 0x77))
+		maxRows := int64(0)
+		if mrng.Intn(3) == 0 {
+			maxRows = int64(10 + mrng.Intn(50))
+		}
+		return typedFactory(sp, rows, n, "id", maxRows, func() []parquet.WriterOption {
 			rng := rand.New(rand.NewSource(sp.Case.Seed ^ 0x99))
 			o := []parquet.WriterOption{parquet.PageBufferSize([]int{128, 1024, 1 << 16}[rng.Intn(3)]), parquet.DataPageVersion(1 + rng.Intn(2)),
 				parquet.Compression(gen.Codecs[allCodecs[rng.Intn(len(allCodecs))]])}
 			if rng.Intn(2) == 0 {
 				o = append(o, parquet.BloomFilters(parquet.SplitBlockFilter(10, "s"), parquet.SplitBlockFilter(10, "d")))
 			}
-			if rng.Intn(3) == 0 {
-				o = append(o, parquet.MaxRowsPerRowGroup(int64(10+rng.Intn(50))))
+			if maxRows > 0 {
+				o = append(o, parquet.MaxRowsPerRowGroup(maxRows))
 			}
 			return o
 		}), true
@@ -499,7 +507,7 @@ func build(sp spec) (f *factory, ok bool) {
 			extra[i].D += 1000
 		}
 		rows = append(rows, extra...)
-		f := typedFactory(sp, rows, n, "d", func() []parquet.WriterOption {
+		f := typedFactory(sp, rows, n, "d", 0, func() []parquet.WriterOption {
 			return []parquet.WriterOption{parquet.DataPageVersion(1 + int(sp.Case.Seed&1))}
 		})
 		f.hist = []int{n}
@@ -507,7 +515,7 @@ func build(sp spec) (f *factory, ok bool) {
 	case "encrypted":
 		n := sp.Case.NRows
 		rows := genTRows(sp.Case.Seed, n+sp.Extra)
-		f := typedFactory(sp, rows, n, "id", func() []parquet.WriterOption {
+		f := typedFactory(sp, rows, n, "id", 0, func() []parquet.WriterOption {
 			cfg := &parquet.EncryptionConfig{FooterKey: c17Key, EncryptedFooter: sp.Case.Seed%2 == 0, FileIdentifier: []byte("c17-file"),
 				AadPrefix: []byte("p")}
 			if sp.Case.Seed%3 == 0 {
